@@ -28,11 +28,18 @@ def s_pair(draw):
     cls = draw(st.sampled_from(["baro", "baro", "gnss"]))
     tcs = st.integers(9, 18) if cls == "baro" else st.integers(20, 22)
     t1, t2 = draw(cg.TIMES)
+    par1 = draw(st.integers(0, 1))
+    corner = None
+    if draw(gen.uint(0, 9)) == 0:
+        # both frames at one position whose CPR fields are round binary numbers for the first frame, altitude fields on a corner
+        lat1, lon1 = cg.round_position(draw, par1, False)
+        lat2, lon2 = lat1, lon1
+        corner = draw(st.sampled_from([0, 0, 0xFFF]))
     return {
         "lat1": lat1, "lon1": lon1, "lat2": lat2, "lon2": lon2,
-        "par1": draw(st.integers(0, 1)), "same_parity": draw(gen.uint(0, 19)) == 0,
+        "par1": par1, "same_parity": draw(gen.uint(0, 19)) == 0,
         "tc1": draw(tcs), "tc2": draw(tcs), "t1": t1, "t2": t2, "as_datetime": draw(st.sampled_from([0, 0, 0, 1, 2, 3, 4, 4])), "hc": draw(gen.hexcase),
-        "ctx_alt1": draw(gen.ubits(12)), "ctx_alt2": draw(gen.ubits(12)),
+        "ctx_alt1": draw(gen.ubits(12)) if corner is None else corner, "ctx_alt2": draw(gen.ubits(12)) if corner is None else corner,
         "ctx_misc": draw(gen.ubits(8)), "ctx_icao": draw(gen.addresses), "df": draw(st.sampled_from([17, 17, 18])),
     }
 
